@@ -31,6 +31,7 @@ def parseFEv (ev : List SExp) : Option Finalize.Ev :=
   match ev with
   | .atom "emit" :: n :: _ => some (.emit (parseNotif n))
   | .atom "unsub" :: _ => some .unsub
+  | .atom "gdrop" :: _ => some .unsub      -- unsubscription through the RAII guard: the same thing
   | _ => none
 
 def runFinalizeCase (cid : String) (field : String → List SExp) (events : List (List SExp)) :
